@@ -84,7 +84,10 @@ class C07(Prop):
         for j, par in enumerate(trees):
             cases.append({"par": par, "kind": "tdvp2s", "sub": "run", "seed": rng.randrange(10 ** 9), "herm": True, "coeffs": j % 4 == 0,
                           "ttno_shuffle": j % 2 == 0, "mode": "default" if j % 5 == 0 else "expm",
-                          "nsteps": rng.choice([1, 2, 3]) if len(par) <= 5 else 1, "nterms": rng.choice([1, 2, 3])})
+                          # several consecutive steps on every small special tree: the children order of the
+                          # state's nodes changes between steps (each contract/split pair rotates it)
+                          "nsteps": (3 if (par in S.SPECIAL_TREES and 4 <= len(par) <= 5) else rng.choice([1, 2, 3])) if len(par) <= 5 else 1,
+                          "nterms": rng.choice([1, 2, 3])})
         for rep in range(ctx.scale(16, 300) * budget_scale):
             cases.append({"par": [None, 0], "kind": "tdvp2s", "sub": "twonode", "seed": rng.randrange(10 ** 9), "herm": True,
                           "coeffs": rep % 2 == 0, "phys": [rng.choice([2, 3]), rng.choice([2, 3])], "bond": {1: rng.choice([1, 2, 3, 4])},
